@@ -186,6 +186,8 @@ package pmm
 //@   modifies alloc.lastAllocFrame, err
 //@   ensures cursor: cursorOK(alloc) && alloc.lastAllocFrame <= 0x10000000000000
 //@   ensures skip: cont ==> err == old(err) && alloc.lastAllocFrame >= old(alloc.lastAllocFrame)
+//@   ensures skipwhy: cont && alloc.lastAllocFrame != old(alloc.lastAllocFrame) ==> regUsable(addrof(region)) && alloc.lastAllocFrame > regEnd(addrof(region)) && (alloc.lastAllocFrame == alloc.kernelEndFrame + 1 || (alloc.lastAllocFrame == regStart(addrof(region)) && regStart(addrof(region)) > regEnd(addrof(region))))
+//@   ensures skipjump: cont && alloc.lastAllocFrame != old(alloc.lastAllocFrame) && alloc.lastAllocFrame == alloc.kernelEndFrame + 1 && !(regStart(addrof(region)) > regEnd(addrof(region)) && alloc.lastAllocFrame == regStart(addrof(region))) ==> (old(alloc.lastAllocFrame) <= regStart(addrof(region)) && alloc.kernelStartFrame == regStart(addrof(region))) || (old(alloc.lastAllocFrame) <= regEnd(addrof(region)) && old(alloc.lastAllocFrame) + 1 == alloc.kernelStartFrame)
 //@   ensures take: !cont ==> err == nil && regUsable(addrof(region)) && regStart(addrof(region)) <= alloc.lastAllocFrame && alloc.lastAllocFrame <= regEnd(addrof(region))
 //@   ensures kernel: !cont ==> !inKernel(alloc, alloc.lastAllocFrame)
 //@   ensures above: !cont && alloc.allocCount > 0 ==> alloc.lastAllocFrame > old(alloc.lastAllocFrame)
